@@ -141,11 +141,10 @@ theorem transform_closed_total (cfg : Cfg) (hd : cfg.deepClone = true) (hk : cfg
   exact ⟨h2, s2, by simp only [transform, e1]; exact e2, c2, w2⟩
 
 /-- the working tree's variant -/
-theorem current_transform_closed (hd : PyGql.Generated.HeapCfg.currentCfg.deepClone = true)
-    (hk : PyGql.Generated.HeapCfg.currentCfg.keepAllTypes = true) (hacc : PyGql.Generated.HeapCfg.currentCfg.accumulateBusted = true)
+theorem current_transform_closed
     (vs : List Visitor) (s : Schema) (h h' : Heap) (s' : Schema) (hc : closedB h s = true) (hw : wfB h s = true)
     (e : transform PyGql.Generated.HeapCfg.currentCfg 2 vs s h = some (h', s')) : closedB h' s' = true :=
-  (transform_closed _ hd hk hacc 0 vs s h h' s' hc hw e).1
+  (transform_closed _ cur_deepClone cur_keepAllTypes cur_accumulateBusted 0 vs s h h' s' hc hw e).1
 
 /-- the clone of the witness is closed and well-formed (instance of `CloneClosedWF` for the fixed variant) -/
 theorem clone_closed_wf_witness_fixed :
@@ -153,9 +152,9 @@ theorem clone_closed_wf_witness_fixed :
 
 /-- T3 stays refuted for the overwritten flag: `heal_closed`'s conclusion fails for `_replace_types_and_directives` of `Cfg.legacy`
     (`replace_closed_refuted_legacy`); the hypothesis `accumulateBusted` is necessary. -/
-theorem current_heal_closed (hacc : PyGql.Generated.HeapCfg.currentCfg.accumulateBusted = true) (s : Schema) (h : Heap)
+theorem current_heal_closed (s : Schema) (h : Heap)
     (hw : wfB h s = true) : ∃ h' s', healLoop PyGql.Generated.HeapCfg.currentCfg 2 s h = some (h', s') ∧ closedB h' s' = true :=
-  let ⟨h', s', e, c, _⟩ := heal_closed _ hacc s h hw 0
+  let ⟨h', s', e, c, _⟩ := heal_closed _ cur_accumulateBusted s h hw 0
   ⟨h', s', e, c⟩
 
 /-! #### member level of `untouched_preserved` for `extend_schema` -/
